@@ -820,6 +820,7 @@ def corr_asm(ctx, P):
             del script[:]
             script.append(g)
             m.evs = []
+            prev_active = any((m.handshaker, m.closer, m.reader, m.writer))
             try:
                 if op == "inRead":
                     m.inReadEvent()
@@ -840,6 +841,13 @@ def corr_asm(ctx, P):
             gs = g if isinstance(g, str) else "y%d" % g
             P.add("asm %s %s" % (op, gs), "asyncstatemachine", dict(case, at=[op, gs]), impl)
             ctx.count("a:asm:" + res.split("+")[0])
+            # direct oracle: an operation that yielded 0/1 is still the active operation, waiting for that event
+            if res.startswith("ok") and g in (0, 1) and (op in ("setHandshake", "setClose", "setWrite") or prev_active or op == "inRead"):
+                act = sum(bool(x) for x in (m.handshaker, m.closer, m.reader, m.writer))
+                if act != 1 or m.result != g:
+                    ctx.violation("c14:asm-drops-unfinished-op",
+                                  "AsyncStateMachine.%s: the generator yielded %d (still waiting) but the machine shows state %s"
+                                  % (op, g, st(m)), dict(case, at=[op, gs], state=st(m)))
             # direct oracle: never more than one operation slot occupied
             if sum(bool(x) for x in (m.handshaker, m.closer, m.reader, m.writer)) > 1:
                 ctx.violation("c14:asm-two-active-ops", "AsyncStateMachine holds two active operations after " + op,
@@ -997,6 +1005,15 @@ def run_gens(L, pin, rng=None, only=None, max_steps=600000):
             idle = 0
 
 
+def ku_then_write(conn, data):
+    """server side of the KeyUpdate scenarios: ask the peer to update its keys, then send data"""
+    from tlslite.constants import KeyUpdateMessageType
+    for r in conn.send_keyupdate_request(KeyUpdateMessageType.update_requested):
+        yield r
+    for r in conn.writeAsync(data):
+        yield r
+
+
 def read_until(conn, n, out):
     """generator: readAsync repeatedly until n bytes arrived or the peer closed"""
     while len(out) < n:
@@ -1042,6 +1059,8 @@ def scenario_list(thorough):
     add("tls13-ffdhe", ver=(3, 4), groups=["ffdhe2048"])
     add("tls13-hrr", ver=(3, 4), hrr=True)
     add("tls13-chacha", ver=(3, 4), ciphers=["chacha20-poly1305"])
+    add("tls13-keyupdate", ver=(3, 4), ku=True)
+    add("tls13-keyupdate-aes256", ver=(3, 4), ku=True, ciphers=["aes256gcm"], d1=3000, d2=2000)
     add("clientauth-3.1", ver=(3, 1), kx=["rsa"], client_cert="client_rsa")
     add("clientauth-3.3", ver=(3, 3), kx=["ecdhe_rsa"], client_cert="client_rsa")
     add("clientauth-tls13", ver=(3, 4), client_cert="client_rsa")
@@ -1177,6 +1196,7 @@ def play_generators(scn, spec, pin, order_seed=None, refilter=None):
     rng = random.Random(order_seed) if order_seed is not None else None
     d1 = payload(scn.get("d1", 700), "c2s")
     d2 = payload(scn.get("d2", 300), "s2c")
+    d3 = payload(500, "c2s-after-keyupdate")
     cache = SessionCache() if (scn.get("resume") and not scn.get("no_cache")) else None
     session = None
     out = {"conns": []}
@@ -1197,11 +1217,20 @@ def play_generators(scn, spec, pin, order_seed=None, refilter=None):
             run_gens(L, pin, rng)
             o["w1"] = end_state(L.client)
             o["r1"] = end_state(L.server)
-            L.server.start(L.server.conn.writeAsync(d2))
+            L.server.start(ku_then_write(L.server.conn, d2) if scn.get("ku") else L.server.conn.writeAsync(d2))
             L.client.start(read_until(L.client.conn, len(d2), got2))
             run_gens(L, pin, rng)
             o["w2"] = end_state(L.server)
             o["r2"] = end_state(L.client)
+            if scn.get("ku"):
+                got3 = bytearray()
+                L.client.start(L.client.conn.writeAsync(d3))
+                L.server.start(read_until(L.server.conn, len(d3), got3))
+                run_gens(L, pin, rng)
+                o["w3"] = end_state(L.client)
+                o["r3"] = end_state(L.server)
+                o["data3"] = hashlib.sha256(bytes(got3)).hexdigest()[:16] + ":%d" % len(got3)
+                o["data3_ok"] = bytes(got3) == d3
             o["data_c2s_ok"] = bytes(got1) == d1
             o["data_s2c_ok"] = bytes(got2) == d2
             o["data_c2s"] = hashlib.sha256(bytes(got1)).hexdigest()[:16] + ":%d" % len(got1)
@@ -1314,6 +1343,7 @@ def play_blocking(scn, spec, pin, timeout=15.0):
     pin.reset()
     d1 = payload(scn.get("d1", 700), "c2s")
     d2 = payload(scn.get("d2", 300), "s2c")
+    d3 = payload(500, "c2s-after-keyupdate")
     cache = SessionCache() if (scn.get("resume") and not scn.get("no_cache")) else None
     session = None
     out = {"conns": []}
@@ -1345,7 +1375,7 @@ def play_blocking(scn, spec, pin, timeout=15.0):
                     return
                 buf += x
 
-        got1, got2, tail = bytearray(), bytearray(), bytearray()
+        got1, got2, got3, tail = bytearray(), bytearray(), bytearray(), bytearray()
 
         def client():
             r = res["client"]
@@ -1355,6 +1385,8 @@ def play_blocking(scn, spec, pin, timeout=15.0):
             if not stage(r, "w1", lambda: cconn.write(d1)):
                 return
             if not stage(r, "r2", lambda: read_n(cconn, len(d2), got2)):
+                return
+            if scn.get("ku") and not stage(r, "w3", lambda: cconn.write(d3)):
                 return
             r["obs"] = observe_end(cconn)
             stage(r, "close", cconn.close)
@@ -1366,7 +1398,15 @@ def play_blocking(scn, spec, pin, timeout=15.0):
                 return
             if not stage(r, "r1", lambda: read_n(sconn, len(d1), got1)):
                 return
-            if not stage(r, "w2", lambda: sconn.write(d2)):
+            def w2():
+                if scn.get("ku"):
+                    for _ in ku_then_write(sconn, d2):
+                        pass
+                else:
+                    sconn.write(d2)
+            if not stage(r, "w2", w2):
+                return
+            if scn.get("ku") and not stage(r, "r3", lambda: read_n(sconn, len(d3), got3)):
                 return
             r["obs"] = observe_end(sconn)
             if not stage(r, "tail", lambda: read_n(sconn, 1 << 30, tail)):
@@ -1397,6 +1437,11 @@ def play_blocking(scn, spec, pin, timeout=15.0):
             o["data_s2c_ok"] = bytes(got2) == d2
             o["data_c2s"] = hashlib.sha256(bytes(got1)).hexdigest()[:16] + ":%d" % len(got1)
             o["data_s2c"] = hashlib.sha256(bytes(got2)).hexdigest()[:16] + ":%d" % len(got2)
+            if scn.get("ku"):
+                o["w3"] = res["client"].get("w3", ["stall", "none"])
+                o["r3"] = res["server"].get("r3", ["stall", "none"])
+                o["data3"] = hashlib.sha256(bytes(got3)).hexdigest()[:16] + ":%d" % len(got3)
+                o["data3_ok"] = bytes(got3) == d3
             o["client"] = res["client"].get("obs", {})
             o["server"] = res["server"].get("obs", {})
             o["close_client"] = res["client"].get("close", ["stall", "none"])
@@ -1420,6 +1465,7 @@ def play_asm(scn, spec, pin, order_seed=None):
     rng = random.Random(order_seed) if order_seed is not None else None
     d1 = payload(scn.get("d1", 700), "c2s")
     d2 = payload(scn.get("d2", 300), "s2c")
+    d3 = payload(500, "c2s-after-keyupdate")
     cache = SessionCache() if (scn.get("resume") and not scn.get("no_cache")) else None
     session = None
     out = {"conns": []}
@@ -1482,6 +1528,12 @@ def play_asm(scn, spec, pin, order_seed=None):
             if len(m.got) < len(d2) and not m.peer_closed:
                 return guarded(m, "r2", m.inReadEvent)
             m.stage.setdefault("r2", ["done", "none"])
+            if scn.get("ku"):
+                if "w3" not in m.stage:
+                    m.stage["w3"] = ["running", "none"]
+                    return guarded(m, "w3", lambda: m.setWriteOp(d3))
+                if m.stage["w3"][0] == "running":
+                    m.stage["w3"] = ["done", "none"]
             if "obs" not in m.stage:
                 m.stage["obs"] = observe_end(m.tlsConnection)
             if "close" not in m.stage:
@@ -1502,11 +1554,28 @@ def play_asm(scn, spec, pin, order_seed=None):
             if len(m.got) < len(d1) and not m.peer_closed:
                 return guarded(m, "r1", m.inReadEvent)
             m.stage.setdefault("r1", ["done", "none"])
+            if scn.get("ku") and "ku" not in m.stage:
+                m.stage["ku"] = ["running", "none"]
+                m.writer_is_ku = True
+                from tlslite.constants import KeyUpdateMessageType
+
+                def start_ku():
+                    # no dedicated slot for this operation: it is a write-type generator
+                    m._checkAssert(0)
+                    m.writer = m.tlsConnection.send_keyupdate_request(KeyUpdateMessageType.update_requested)
+                    m._doWriteOp()
+                return guarded(m, "ku", start_ku)
+            if scn.get("ku") and m.stage["ku"][0] == "running":
+                m.stage["ku"] = ["done", "none"]
             if "w2" not in m.stage:
                 m.stage["w2"] = ["running", "none"]
                 return guarded(m, "w2", lambda: m.setWriteOp(d2))
             if m.stage["w2"][0] == "running":
                 m.stage["w2"] = ["done", "none"]
+            if scn.get("ku") and len(m.got) < len(d1) + len(d3) and not m.peer_closed:
+                return guarded(m, "r3", m.inReadEvent)
+            if scn.get("ku"):
+                m.stage.setdefault("r3", ["done", "none"])
             if "obs" not in m.stage:
                 m.stage["obs"] = observe_end(m.tlsConnection)
             if not m.peer_closed:
@@ -1571,10 +1640,18 @@ def play_asm(scn, spec, pin, order_seed=None):
             o["data_s2c_ok"] = got2 == d2
             o["data_c2s"] = hashlib.sha256(got1).hexdigest()[:16] + ":%d" % len(got1)
             o["data_s2c"] = hashlib.sha256(got2).hexdigest()[:16] + ":%d" % len(got2)
+            extra = 0
+            if scn.get("ku"):
+                got3 = bytes(sm.got[len(d1):len(d1) + len(d3)])
+                extra = len(d3)
+                o["w3"] = stg(cm, "w3")
+                o["r3"] = stg(sm, "r3")
+                o["data3"] = hashlib.sha256(got3).hexdigest()[:16] + ":%d" % len(got3)
+                o["data3_ok"] = got3 == d3
             o["client"] = cm.stage.get("obs", {})
             o["server"] = sm.stage.get("obs", {})
             o["close_client"] = stg(cm, "close")
-            o["close_server_read"] = stg(sm, "tail") + [max(0, len(sm.got) - len(d1))]
+            o["close_server_read"] = stg(sm, "tail") + [max(0, len(sm.got) - len(d1) - extra)]
             o["close_server"] = stg(sm, "close")
             session = L.client.conn.session
         o["wire_c2s"] = hashlib.sha256(b"".join(L.link.wire_log["c2s"])).hexdigest()[:16]
@@ -1723,13 +1800,19 @@ def live_compare(ctx, scn, kind, spec, ref, pin, order_seed=None, reframe=None):
     if kind == "blocking" and any(c.get("hung") for c in got["conns"]):
         ctx.extra["blocking_hung"] = True
     if d:
+        def prio(x):
+            leaf = x[0].split("/")[-1]
+            order = ["hs_client", "hs_server", "w1", "r1", "w2", "r2", "w3", "r3", "data_c2s_ok", "data_s2c_ok", "data3_ok",
+                     "close_client", "close_server_read", "close_server"]
+            return (order.index(leaf) if leaf in order else len(order), x[0])
+        d.sort(key=prio)
         first = d[0]
         first = (first[0], "<absent>" if first[1] == "<absent>" else repr(first[1])[:60],
                  "<absent>" if first[2] == "<absent>" else repr(first[2])[:60])
         cls = first[0].split("/")[-1]
         key = "c14:%s-differs:%s" % (kind if kind != "reframe" else "reframe-" + reframe[0], cls)
         ctx.violation(key, "scenario %s, %s run differs from the unconstrained run at %s: %s vs %s (%d differences)"
-                      % (scn["name"], kind, first[0], first[1], first[2], len(d)),
+                      % (scn["name"], kind if kind != "reframe" else "re-framed (%s)" % reframe[0], first[0], first[1], first[2], len(d)),
                       dict(rep, differences=[list(x) for x in d[:12]]))
     return got
 
@@ -1836,6 +1919,9 @@ def replay(ctx, rep):
                 print("   ", d[0], ":", repr(d[1])[:100], "|", repr(d[2])[:100])
         return bool(ctx.violations)
     print("replay of stage %r: re-running the model/implementation correspondence and its oracles" % inp.get("stage"))
+    import random
+    ctx.rng = random.Random(rep.get("seed", ctx.seed))
+    ctx.tier = rep.get("tier", ctx.tier)
     P = Pending(ctx)
     corr_recordsocket(ctx, P)
     corr_send(ctx, P)
